@@ -453,10 +453,10 @@ func genSide(rng *rand.Rand, n, nTimes, nKeys, nTags int) []ev {
 		for iter := 0; len(es) < n && iter < 100; iter++ {
 			r := rng.Intn(10)
 			switch {
-			case r < 2 && w < nTimes:
+			case r < 3 && w < nTimes:
 				w = w + 1 + rng.Intn(nTimes-w)
 				es = append(es, ev{wm: true, t: w})
-			case r < 5 && len(present) > 0:
+			case r < 6 && len(present) > 0:
 				i := rng.Intn(len(present))
 				p := present[i]
 				lo := p.t
